@@ -127,6 +127,19 @@ theorem dest_range_sorted (O : Oracle) (h : Hist) (a : Attrs) (d : Nat) :
   exact List.pairwise_lt_range'
 
 
+/-- At the level of calls: every per-particle call made while a destination is processed
+(initialize, initialize_pair, loop_all, loop, post_loop, source-free loop) is for that destination
+array and for an index in `range(start_idx, N)` — never a particle before `start_idx`, never one at
+or beyond `N` (so never a ghost when `real=True` and no `stop_idx` is given). -/
+theorem dest_indices_in_range (O : Oracle) (a : Attrs) (ddd : Nat × DestData) (h : Hist) :
+    ∃ new, doDest O a ddd h = new ++ h ∧
+      ∀ e ∈ new, ∀ d i, e.particle? = some (d, i) →
+        d = ddd.1 ∧ startIdx O h a ddd.1 ≤ i ∧ i < npDest O h a ddd.1 := by
+  obtain ⟨new, e1, p1⟩ := ext_doDest_range O a ddd h
+  refine ⟨new, e1, fun e he d i hp => ?_⟩
+  obtain ⟨hd, hi⟩ := p1 e he d i hp
+  exact ⟨hd, (dest_range O h a ddd.1 i).mp hi⟩
+
 /-! ## Iterated groups -/
 
 /-- An iterated group with `1 ≤ max_iterations`, `min_iterations ≤ max_iterations` runs `n`
